@@ -8,7 +8,7 @@ export CARGO_NET_OFFLINE=true CARGO_TARGET_DIR=$wt/target
 demo=$(git status --porcelain -uall | awk '$1=="??"{print $2}' | grep -E 'tests/|examples/' | head -1)
 [ -z "$demo" ] && { echo "$id: no demo file found"; exit 2; }
 crate=$(echo $demo | cut -d/ -f1); name=$(basename $demo .rs)
-feat=""; [ "$crate" = "wtransport-proto" ] && feat="--features async"
+feat=""; [ "$crate" = "wtransport-proto" ] && feat="--features async"; [ "$crate" = "wtransport" ] && feat="--features quinn"
 run() { if echo $demo | grep -q examples/; then cargo run --offline -q -p $crate $feat --example $name 2>&1 | tail -15; else cargo test --offline -q -p $crate $feat --test $name 2>&1 | grep -E "^test result|panicked|FAILED|failed" | head -8; fi; }
 echo "== $id with change ($demo)"; run; rc1=$?
 git apply -R $out/patch.diff || { echo "cannot reverse patch"; exit 2; }
